@@ -317,8 +317,48 @@ def _file_write_all(ex, st, args, dest_ty, func, where):
 def _metadata(ex, st, args, dest_ty, func, where):
     ok = ex.fresh_bool("metadata_ok")
     ln = ex.fresh_int("file_len", ty="u64")
+    secs = ex.fresh_int("mtime_secs", lo=-(1 << 40), hi=(1 << 40))
+    nanos = ex.fresh_int("mtime_nanos", lo=0, hi=999_999_999)
     record(ex, st, "metadata", path=path_term(ex, st, args[0]), ok=ok, len=ln)
-    return io_result(ex, ok, VStruct("Metadata", [VInt(ln, "u64")]))
+    # Metadata = (len, modified-ok, modified time): read-only facts about the file, all inputs
+    mt = VStruct("SystemTime", [VInt(secs, "i64"), VInt(nanos, "u32")])
+    return io_result(ex, ok, VStruct("Metadata", [VInt(ln, "u64"), VBool(z3.BoolVal(True)), mt]))
+
+
+def _meta_modified2(ex, st, args, dest_ty, func, where):
+    m = _deep(ex, st, args[0])
+    if isinstance(m, VStruct) and m.name == "Metadata" and len(m.f) >= 3:
+        return VEnum("Result", I(0), {0: [m.f[2]], 1: [VStruct("IoError", [VInt(I(8), "u8")])]})
+    raise Unsupported("Metadata::modified on %r" % (m,))
+
+
+def _systime_cmp(ex, st, args, dest_ty, func, where):
+    a, b = _deep(ex, st, args[0]), _deep(ex, st, args[1])
+    x = (a.f[0].t, a.f[1].t)
+    y = (b.f[0].t, b.f[1].t)
+    gt = z3.Or(x[0] > y[0], z3.And(x[0] == y[0], x[1] > y[1]))
+    eq = z3.And(x[0] == y[0], x[1] == y[1])
+    op = func.rsplit("::", 1)[1]
+    t = {"ge": z3.Or(gt, eq), "gt": gt, "le": z3.Not(gt), "lt": z3.Not(z3.Or(gt, eq)), "eq": eq, "ne": z3.Not(eq)}[op]
+    return VBool(simp(t))
+
+
+def _result_and_then(ex, st, args, dest_ty, func, where):
+    """Result::and_then(f): f on the Ok payload, the error passed through"""
+    from .stdmodels import _call_fn_value
+    r, f = _deep(ex, st, args[0]), args[1]
+    if 0 not in r.pay:
+        return r
+    g0 = st.guard
+    s_ok = st.fork(simp(z3.And(g0, r.discr == 0)))
+    inner = _call_fn_value(ex, s_ok, f, [r.pay[0][0]], where)
+    from .symexec import merge_states
+    s_err = st.fork(simp(z3.And(g0, r.discr != 0)))
+    ms = merge_states([s_ok, s_err])
+    if ms is not None:
+        st.guard, st.frames = ms.guard, ms.frames
+    pay = {0: list(inner.pay.get(0, [])), 1: list(inner.pay.get(1, r.pay.get(1, [VOpaque("error")])))}
+    return VEnum("Result", simp(z3.If(r.discr == 0, inner.discr, I(1))), pay)
 
 
 def _metadata_len(ex, st, args, dest_ty, func, where):
@@ -369,6 +409,17 @@ def _opt_array_eq(ex, st, args, dest_ty, func, where):
     return VBool(simp(t))
 
 
+def _opt_tuple_eq(ex, st, args, dest_ty, func, where):
+    """<Option<(scalar, scalar, ..)> as PartialEq>::eq"""
+    a, b = _deep(ex, st, args[0]), _deep(ex, st, args[1])
+    conj = []
+    if 1 in a.pay and 1 in b.pay:
+        x, y = _deep(ex, st, a.pay[1][0]), _deep(ex, st, b.pay[1][0])
+        conj = [p.t == q.t for p, q in zip(x.f, y.f)]
+    t = z3.Or(z3.And(a.discr == 0, b.discr == 0), z3.And(a.discr == 1, b.discr == 1, *conj))
+    return VBool(simp(z3.Not(t) if func.endswith("::ne") else t))
+
+
 def install(ex):
     M = []
 
@@ -405,11 +456,15 @@ def install(ex):
     A(r"^<std::fs::File as (std::io::)?Write>::flush$", _file_call("flush-file"), "File::flush (recorded; NOT a sync)")
     A(r"^std::fs::File::sync_data$", _file_call("sync_data"), "File::sync_data (recorded)")
     A(r"^<std::fs::File as (std::io::)?Write>::write_all$", _file_write_all, "File::write_all (recorded with its bytes)")
-    A(r"^std::fs::metadata::<", _metadata, "fs::metadata (recorded; length is an input)")
+    A(r"^std::fs::(symlink_)?metadata::<", _metadata, "fs::metadata / symlink_metadata (recorded; length and mtime are inputs)")
+    A(r"^std::fs::Metadata::modified$", _meta_modified2, "Metadata::modified (input value)")
+    A(r"^<(std::time::)?SystemTime as Partial(Ord|Eq)>::(ge|gt|le|lt|eq|ne)$", _systime_cmp, "SystemTime comparisons")
+    A(r"^(std::result::)?Result::<.*>::and_then::<", _result_and_then, "Result::and_then")
     A(r"^std::fs::Metadata::len$", _metadata_len, "Metadata::len")
     A(r"^Path::exists$", _path_exists, "Path::exists (recorded)")
     A(r"^std::io::copy::<std::fs::File, ", _io_copy_file, "io::copy(File -> writer) (recorded)")
     A(r"^<W as (std::io::)?Write>::flush$", _flush, "Write::flush (recorded)")
     A(r"^<impl FnOnce\(\) -> T as FnOnce<\(\)>>::call_once$", _call_once, "FnOnce::call_once of a closure value")
+    A(r"^<(std::option::)?Option<\(\w+(, \w+)*\)> as PartialEq>::(eq|ne)$", _opt_tuple_eq, "<Option<(scalars)> as PartialEq>::eq")
     A(r"^<(std::option::)?Option<\[u8; 32\]> as PartialEq>::(eq|ne)$", _opt_array_eq, "<Option<[u8; 32]> as PartialEq>::eq")
     ex.models = M + ex.models
